@@ -38,7 +38,7 @@ class SymEntry:
         return snp.ndarray(o, rnp.uint32, SInt(self.n) if not isinstance(self.n, int) else None)
 
 
-def sym_dim(eng, C, tag, N, cats, common, extra=(), cap=2, present=None):
+def sym_dim(eng, C, tag, N, cats, common, extra=(), cap=2, present=None, min_len=1):
     """A well-formed symbolic index of shape (N,)+extra over categories `cats` (common excluded).
     `present`: dict key -> bool (structure); absent keys have no entry.  Returns (iindex, entries)."""
     entries = []
@@ -53,7 +53,7 @@ def sym_dim(eng, C, tag, N, cats, common, extra=(), cap=2, present=None):
                 continue
             nm = "%s_%s" % (tag, "_".join(str(k) for k in key))
             n = z3.Int("n_" + nm)
-            eng.assume(n >= 1, n <= cap)
+            eng.assume(n >= min_len, n <= cap)
             xs = [z3.Int("x_%s_%d" % (nm, j)) for j in range(cap)]
             for j, x in enumerate(xs):
                 eng.assume(z3.Implies(j < n, z3.And(x >= 0, x < N)))
